@@ -27,6 +27,12 @@ def gen_graph(seed, idx, max_files=6):
     while len(paths) < n:
         d = r.choice(DIRS)
         p = (d + "/" if d else "") + f"f{len(paths)}.bard"
+        if len(paths) > 1 and r.random() < 0.2:
+            # a second file whose path differs from an existing one in letter case only (two files on a case-sensitive file system)
+            q = r.choice(paths[1:])
+            p = r.choice([q.upper().replace(".BARD", ".bard"), q.replace("f", "F", 1), os.path.join(os.path.dirname(q).upper(), os.path.basename(q)) if os.path.dirname(q) else q.capitalize()])
+            if p in paths:
+                p = (d + "/" if d else "") + f"f{len(paths)}.bard"
         paths.append(p)
     files = {}
     mode = r.random()      # < 0.65 tree/diamond (acyclic), else any direction (cycles, self-includes)
@@ -387,6 +393,10 @@ HISTORIES = [
      [({"main.bard": ":: Start\nHi\n+ [go] -> A\n@include sub/a.bard\n", "sub/a.bard": ":: A\nfirst text\n@include b.bard\n", "sub/b.bard": ":: B\nb one\n"}, "main.bard"),
       ({"sub/b.bard": ":: B\nb two\n+ [x] -> A\n"}, "main.bard"),
       ({"sub/a.bard": ":: A\nsecond text\n"}, "main.bard")]),
+    ("files whose paths differ in letter case only include one another (two files, no cycle)",
+     [({"Prologue.bard": ":: Start\nHi\n+ [go] -> P\n@include prologue.bard\n", "prologue.bard": ":: P\nlower\n@include Shared/items.bard\n",
+        "Shared/items.bard": ":: Items\nupper dir\n@include ../shared/items.bard\n", "shared/items.bard": ":: items_lower\nlower dir\n@include ITEMS.bard\n",
+        "shared/ITEMS.bard": ":: ITEMS_UP\nshouting\n"}, "Prologue.bard")]),
     ("a diamond after a failure",
      [({"main.bard": ":: Start\nHi\n@include l.bard\n@include r.bard\n", "l.bard": ":: L\nl\n@include nope.bard\n", "r.bard": ":: R\nr\n"}, "main.bard"),
       ({"l.bard": ":: L\nl\n"}, "main.bard")]),
@@ -431,6 +441,8 @@ DUP_LAYOUTS = [
     ({"story/main.bard": ":: Start\nHi\n@include x/story/main.bard\n\n\n\n:: Hall\nsecond\n",
       "story/x/story/main.bard": ":: Hall\nfirst\n"}, "story/main.bard"),
     ({"main.bard": ":: Start\nHi\n\n:: A\none\n\n\n:: A\ntwo\n"}, "main.bard"),
+    # text lines holding characters that str.splitlines() - but not split("\n") - takes for line ends, above the locations listed
+    ({"main.bard": ":: Start\nHi\u2028there\nform\x0cfeed\n+ [go] -> A\n\n:: A\none\n@include sub/a.bard\n", "sub/a.bard": "note\x85x\nfs\x1cgs\x1d\n\n:: A\ntwo\n"}, "main.bard"),
     ({"main.bard": "@include a.bard\n@include sub/a.bard\n:: Start\nHi\n", "a.bard": "\n:: A\none\n", "sub/a.bard": "\n\n\n:: A\ntwo\n:: Start\nagain\n"}, "main.bard"),
 ]
 _DUP_LINE = re.compile(r"^\s*Line\s+(\d+)(?: in (.+?))?: (.*?)  ← ", re.M)
